@@ -1,4 +1,6 @@
-(* ExtractForms.v - C05: extraction of the executable models for the correspondence run. *)
+(* ExtractForms.v - C05: extraction of the executable models for the correspondence run.
+   (Z.of_N only so that the type z exists for ocaml/conv.ml.) *)
+From Coq Require Import ZArith.
 Require Import ExtrOcamlBasic.
 Require Import XV.FormsDefs.
-Extraction "extracted/forms_model.ml" build_sax norm wrap chunks orun narrow_ok.
+Extraction "extracted/forms_model.ml" build_sax norm wrap chunks orun narrow_ok Z.of_N.
